@@ -62,7 +62,7 @@ def run(tier):
                 ls, la = len(c["signed"]), len(c["actual"])
                 run.violation({"clauses": clauses, "scale": "unit", "truncated": la < ls, "extended": la > ls, "undamaged": c["signed"] == c["actual"], "whole_file_copy": c["mode"][0] == -1}, c,
                               "real safekeeper violates %s: signed=%s actual=%s (units of 32 KiB) consumer=%s -> %s out=%s %s"
-                              % (clauses, c["signed"], c["actual"], "copy-until-EOF" if c["mode"][0] == -1 else "block range %s" % c["mode"], c["result"], c["out"], c["err"][:100]))
+                              % (clauses, c["signed"], c["actual"], "copy-until-EOF" if c["mode"][0] == -1 else ("cache chunk at unit %d" % c["mode"][1]) if c["mode"][0] == -2 else "block range %s" % c["mode"], c["result"], c["out"], c["err"][:100]))
             if ucases == n:
                 run.sample({"unit_case": vlib.get_line(tp, 5)})
         run.coverage["unit_cases"] = ucases
